@@ -136,22 +136,23 @@ check("C19", "exploration",
 
 # ---- session 3: what was added to each check (appended to the claim text; DESIGN.md 8.5 has the details) ----
 ADDITIONS = {
- "C01": "Added in session 3: marker paths sharing a plain upper-case prefix (/A/x-@m, /A/y-@m); host-focus universe with a second rule on the longer host pattern and the same dynamic host in another casing (10 rules).",
- "C02": "Added in session 3: r12 (a header condition shared with r5 inside ONE header matcher) and r13 (host \"\" = any host); 15 variants / 13 ids.",
- "C03": "Added in session 3: the six context-loss signatures are fixed in /repo (856299d) and suppress nothing any more; a curated body with end tags that close nothing inside a buffered target; bodies that are NOT valid UTF-8 (one 0xFF at every 5th / every position of 3 / 8 curated documents x 4 filter lists): the by-design divergence of the error fallback is one open finding, any loss / duplication / permutation of bytes on such a body has its own signature.",
- "C05": "Added in session 3: controls are the full product reset x stop x sampling{none,0,100} (12), a payload overriding one header shared by all rules, unit ids on every rule and filter; every case is also built and observed with a UnitTrace handed to every call (same action JSON, same effects, trace rule ids == applied ids).",
- "C06": "Added in session 3: requests at instants 400 us / 1 ns before and 999.6 ms / 1 s - 1 ns after every probe instant (the probe space puts its instants ON the window boundaries); rules whose target / header / body values have blank edges, are empty or contain control characters.",
- "C07": "Added in session 3: marker expressions with named / unnamed groups of their own that accept the baseline values.",
- "C08": "Added in session 3: twin-tree interleavings - two trees differing only in ignore_case hold the same pattern and run the script insert, find, cache, find; all 70 interleavings x 27 patterns x {multi, unique}, each on a thread of its own; every find must equal the linear scan of its own tree (detects per-thread / process-wide memoisation keyed without the case mode).",
- "C09": "Added in session 3: a non-ASCII parameter name and a parameter sorting after the marketing keys.",
- "C10": "Added in session 3: transformers that cannot be built (unknown type, replace / slice without options) inside chains and in a variable's chain; references directly followed by a name character (@a_s, @y9, @xs).",
- "C12": "Added in session 3: heavy-pattern pass (never-warmed vs warmed tree / router on expressions whose compiled program is large) and twin-router interleavings (two routers differing only in ignore_path_and_query_case, same marker rules, all 70 interleavings of insert / match / cache / match, each on its own thread, every answer compared with the router's own configuration).",
- "C13": "Added in session 3: second universe with prefix-related names (X, X-Y, x-y-z), filters with and without unit id / production target hash; Action::filter_headers also with a UnitTrace.",
- "C14": "Added in session 3: hand-built zlib streams declaring windows of 2^9 / 2^12 / 2^14 bytes, a gzip member with FEXTRA / FNAME / FCOMMENT; filter lists replace_text and a buffering two-stage HTML list.",
- "C15": "Added in session 3: 2-4 sibling occurrences of the target for ALL three edits (found a genuine defect, fixed in /repo 586fa08); non-void self-closing fillers, raw-text fillers with white space in the end tag, the legacy script guard; two unparsable selectors.",
- "C16": "Added in session 3: run-length sweep - 23 constructs x 18 fillers x every run length 1..80 (quick) / 1..300 (thorough), in the document and in a raw-text context.",
- "C17": "Added in session 3: every probe is also traced as a request built with the DEFAULT configuration (the trace normalises it itself); marker paths sharing a plain upper-case prefix.",
- "C18": "Added in session 3: header lists with undecodable entries (NULL name, NULL value, ISO-8859-1 bytes) between valid ones; a body filter that failed on an earlier chunk (declared gzip, body not gzip); allocation-free termination watchdog.",
+ "C01": "Added in session 3: marker paths sharing a plain upper-case prefix (/A/x-@m, /A/y-@m); host-focus universe with a second rule on the longer host pattern and the same dynamic host in another casing (10 rules). Count thresholds: routers holding 60 / 130 rules that differ in ONE trigger dimension (static / dynamic host, static / dynamic path, ip range, method, header value, date range), every rule's own request judged by the flat predicate, cold and warmed; repeated constraints (same ip range / method twice); IPv6 range, single address, range + negation; IPv4-mapped client address.",
+ "C02": "Added in session 3: r12 (a header condition shared with r5 inside ONE header matcher) and r13 (host \"\" = any host); 15 variants / 13 ids. Later in session 3: r14 (the same ip constraint / method twice), r15 (header pattern with an upper-case literal), r16 / r17 (two rules on one dynamic host under a scheme of their own), r18 (a two-condition date group sharing with two other groups): 21 variants / 19 ids; change-sets that delete an id and bring a version of it.",
+ "C03": "Added in session 3: the six context-loss signatures are fixed in /repo (856299d) and suppress nothing any more; a curated body with end tags that close nothing inside a buffered target; bodies that are NOT valid UTF-8 (one 0xFF at every 5th / every position of 3 / 8 curated documents x 4 filter lists): the by-design divergence of the error fallback is one open finding, any loss / duplication / permutation of bytes on such a body has its own signature. Size thresholds: generated documents with one long run (4 KiB .. 512 KiB, thorough 2 MiB) inside each of 11 constructs x 4 filter lists, one chunk vs strides 1 000 .. 100 000 and single cuts around the run.",
+ "C04": "Added in session 3: size thresholds - the generated documents with one long run (4 KiB .. 512 KiB, thorough 2 MiB) inside each of 11 constructs x 4 filter lists under one chunk, six strides and cuts around the run: conservation relation on every output; a curated body with end tags that close nothing inside a buffered target.",
+ "C05": "Added in session 3: controls are the full product reset x stop x sampling{none,0,100} (12), a payload overriding one header shared by all rules, unit ids on every rule and filter; every case is also built and observed with a UnitTrace handed to every call (same action JSON, same effects, trace rule ids == applied ids). Code lists written unsorted ([500, 404], also excluded); get_final_status_code_with_fallback against the reference; the same Action object used for one response code and then asked about another.",
+ "C06": "Added in session 3: requests at instants 400 us / 1 ns before and 999.6 ms / 1 s - 1 ns after every probe instant (the probe space puts its instants ON the window boundaries); rules whose target / header / body values have blank edges, are empty or contain control characters. 130 / 1 100 filler headers before the probe's own; the used action is continued for four codes after the hand-off.",
+ "C07": "Added in session 3: marker expressions with named / unnamed groups of their own that accept the baseline values. Date edges (+10000, -0001, +262142 ...) with a rule that has a request_time variable and no date trigger (found a genuine defect, fixed a779549); logger-installing cases in a worker process of their own, both orders of the two initialisers (found a genuine defect, fixed f99fff9); 4 KiB chunks for big bodies.",
+ "C08": "Added in session 3: twin-tree interleavings - two trees differing only in ignore_case hold the same pattern and run the script insert, find, cache, find; all 70 interleavings x 27 patterns x {multi, unique}, each on a thread of its own; every find must equal the linear scan of its own tree (detects per-thread / process-wide memoisation keyed without the case mode). 'nested' set explored insert-only (every insertion order of every subset, depth 6 / 7), 'wide' set (a node with 11 children prefilled), 'case-folding' set (letters with more than two case forms).",
+ "C09": "Added in session 3: a non-ASCII parameter name and a parameter sorting after the marketing keys. Prefix-related parameter names (a / a2); every URL with <=1 parameter also as a rule that declares an unused marker.",
+ "C10": "Added in session 3: transformers that cannot be built (unknown type, replace / slice without options) inside chains and in a variable's chain; references directly followed by a name character (@a_s, @y9, @xs). A marker name with upper-case letters, expressions containing a quote / a named group of their own, an unrelated header before the one a pattern looks at.",
+ "C12": "Added in session 3: heavy-pattern pass (never-warmed vs warmed tree / router on expressions whose compiled program is large) and twin-router interleavings (two routers differing only in ignore_path_and_query_case, same marker rules, all 70 interleavings of insert / match / cache / match, each on its own thread, every answer compared with the router's own configuration). 'wide' tree configuration; warmed tree states are compared with the linear scan; r15 in the quick router set.",
+ "C13": "Added in session 3: second universe with prefix-related names (X, X-Y, x-y-z), filters with and without unit id / production target hash; Action::filter_headers also with a UnitTrace. Third universe: names of equal length differing in one non-letter byte by bit 5 (X~Y / X^Y).",
+ "C14": "Added in session 3: hand-built zlib streams declaring windows of 2^9 / 2^12 / 2^14 bytes, a gzip member with FEXTRA / FNAME / FCOMMENT; filter lists replace_text and a buffering two-stage HTML list. Filter list with an HTML stage before replace_text.",
+ "C15": "Added in session 3: 2-4 sibling occurrences of the target for ALL three edits (found a genuine defect, fixed in /repo 586fa08); non-void self-closing fillers, raw-text fillers with white space in the end tag, the legacy script guard; two unparsable selectors. Size thresholds: the generated documents with one long run, exact expected output in one chunk; an upper-case twin of the element the selector looks for.",
+ "C16": "Added in session 3: run-length sweep - 23 constructs x 18 fillers x every run length 1..80 (quick) / 1..300 (thorough), in the document and in a raw-text context. Composite tokens reaching the deep script sub-states within the quick bound, byte order mark, <svg> / </svg>.",
+ "C17": "Added in session 3: every probe is also traced as a request built with the DEFAULT configuration (the trace normalises it itself); marker paths sharing a plain upper-case prefix. Count thresholds: the many-rules pass with trace == match, final priority and last action step; IPv4-mapped client address.",
+ "C18": "Added in session 3: header lists with undecodable entries (NULL name, NULL value, ISO-8859-1 bytes) between valid ones; a body filter that failed on an earlier chunk (declared gzip, body not gzip); allocation-free termination watchdog. add_proxy with a rejected string, header lists of 130 entries, released blocks quarantined while a sequence runs (a use after free inside the library is reported instead of crashing the explorer).",
  "C19": "Added in session 3: ignore_path_and_query_case with a lone upper-case pattern rule; independent verdict on every example of the final rule list (must-match example fails iff the live pipeline does not apply its rule, must-not-match example fails iff it does; example_count).",
 }
 COMMON = " Every unit of work runs under a termination watchdog (a call that does not return within 30 s is the violation does-not-terminate with a replay file) and with panics of the library caught (violation panic:<file:line>). A violation that fails inside the exploration but not when its case is executed alone is confirmed by a second complete exploration and reported as history-dependent (hidden shared state in the library)."
